@@ -29,6 +29,7 @@ def run(ctx):
     P = ctx.prog
     E = Effects(P)
     ctx.not_decided = 'OS semantics of O_APPEND; byte-prefix preservation is implied by (append-only open mode) + (single writer set) + (no other code can name the file), not observed.'
+    c028(ctx)
     ctx.rule('C02.1', 'EventLog::new opens the truth file with create(true)+append(true) and nothing else (no truncate/write/create_new); no function of crate rip_log calls File::create, set_len, seek, fs::write, rename, remove_file or copy.')
     ctx.rule('C02.2', 'in EventLog::append serde_json::to_string dominates the first write (a serialisation error writes nothing) and flush is passed on every path from a write to the Ok return.')
     ctx.rule('C02.3', 'the literal "events.jsonl" occurs in production code only where it flows into EventLog::new; EventLog fields are private; cache modules never call into rip_log write APIs and never name EventLog.')
@@ -232,3 +233,37 @@ def c026(ctx):
 def _err_blocks(fn):
     """blocks that construct the error return (from_residual calls)."""
     return [s.bb for s in fn.calls(r'FromResidual<.*>>::from_residual$')]
+
+
+def c028(ctx):
+    """who may touch the log's writer handle"""
+    from ..core import op_place as _opl
+    P = ctx.prog
+    ctx.rule('C02.8', 'reading the log writes nothing: inside rip_log the writer handle of the EventLog (its `writer` field) is touched by `append` and the constructor only — '
+             'no replay / read function locks, flushes or writes it, and there is no second appending entry point beside the audited one (C01.2). A replay that "flushes first" turns every '
+             'read-only capability that falls back to the truth log into a writer of events.jsonl.')
+    touching = []
+    nfn = 0
+    for p_, f in sorted(P.fns.items()):
+        if f.crate != 'rip_log':
+            continue
+        nfn += 1
+        hit = False
+        for bi in f.reachable():
+            for st in f.blocks[bi]['s']:
+                rv = st.get('rv') or {}
+                for pl in ([rv.get('pl')] if rv.get('pl') else []) + [_opl(a) for a in rv.get('a', [])] + [st.get('d')]:
+                    for pp in (pl or {}).get('p', []):
+                        if isinstance(pp, dict) and pp.get('n') == 'writer' and pp.get('o', '').endswith('EventLog'):
+                            hit = True
+        if hit:
+            touching.append(f)
+    ctx.floor('C02.8', 'functions of rip_log scanned', nfn, 8)
+    ctx.floor('C02.8', 'functions of rip_log that touch the writer handle', len(touching), 1)
+    allowed = lambda f: bool(re.search(r'^rip_log::EventLog::(append|new)$', f.path)) or any(
+        re.search(r'^rip_log::EventLog::(append|new)$', c.fn.path) for c in P.callers('^' + re.escape(f.path) + '$')) and not any(
+        not re.search(r'^rip_log::EventLog::(append|new)', c.fn.path) for c in P.callers('^' + re.escape(f.path) + '$'))
+    for f in touching:
+        ok = allowed(f)
+        ctx.ob('C02.8', f, 'writer-handle-owner', ok, '%s touches EventLog.writer%s' % (f.path, '' if ok else
+               ': only append (and helpers only it calls) may — a read path that flushes or a second append entry point writes the truth log outside the audited writer'), line=f.line)
